@@ -6,6 +6,23 @@ var realAll = []string{"every package of /repo (scratch copy, mechanically instr
 
 func init() {
 	register(&propCfg{
+		id: "C01", worker: "c01", goCmd: "go",
+		instrument: []string{"-maps", "-clock", "-tick"},
+		tiers: map[string]tierCfg{
+			"quick":    {cases: 16_000, timeout: 20 * time.Minute},
+			"thorough": {cases: 1_000_000, timeout: 120 * time.Minute},
+		},
+		level: "exploration",
+		rule: "case = one tape. 7/11: a constructed font (TrueType / CFF / CID-keyed CFF, 1..300 glyphs, optional GSUB/GPOS/GDEF, tape-chosen metadata and timestamps) is written under four map-order assignments with the simulated clock at a different instant and jumping >= 25 h per read, twice on the same value and once on a Clone (R: all bytes equal, font value unchanged), then taken through three read/write generations each under another map order and clock (FP), then compared field by field with its first re-read (L, incidental). 4/11: a Go font file or the written form of a generated font, 3/4 of them damaged by 1..3 faults of the stored-data catalogue; if Read still accepts it the three generations are run (FP on fault survivors). Non-trivial = every case that reached at least one write; distinct = distinct digest of the font value or of the (damaged) file.",
+		real:  realAll,
+		stubs: []string{"io.Writer / io.ReaderAt (simio, fault-free here)", "map iteration order at every repository site", "time.Now (simhook.Now: tape-chosen instant, jumps >= 25 h on every read)", "stored bytes (fault catalogue applied between write and read)"},
+		assume: []string{
+			"fonts with both timestamps zero are outside the domain (the name table embeds the current date); for them only the clock reads are counted",
+			"floats are compared to relative 1e-8 between generations, as the repository's own round-trip test does",
+			"a panic of Read on a damaged file is counted and left to C02",
+		},
+	})
+	register(&propCfg{
 		id: "C03", worker: "c03", goCmd: "go",
 		instrument: []string{"-maps", "-clock", "-tick"},
 		tiers: map[string]tierCfg{
